@@ -41,6 +41,9 @@ def gen_config(rng):
 
 
 def generate(seed, prop, tier, index=0):
+    if index % 12 == 5:
+        from engines import robot
+        return robot.generate_integration(seed, prop, tier, index)
     rng = random.Random(seed)
     cfg = gen_config(rng)
     model = SAModel(cfg, exact=cfg["dyadic"])
